@@ -5,6 +5,12 @@ import json, os, sys
 VERIF = os.path.dirname(os.path.dirname(os.path.abspath(__file__)))
 
 ENGINES = [
+    {"name": "fault", "path": "vf/engines/fault.cc", "serves_properties": ["C12"],
+     "kind_free_text": "fault enumeration: each generated history is re-executed once per intercepted system call (every call when few, sampled otherwise) with that call failing "
+                       "(ENOSPC/EIO/EMFILE/ENOENT, one-shot, persistent or short write); marker-key oracle after close+reopen and after kill+reopen with the fault cleared"},
+    {"name": "conc", "path": "vf/engines/conc.cc", "serves_properties": ["C08", "C09", "C04"],
+     "kind_free_text": "schedule exploration: generated multi-threaded programs on a deterministic baton scheduler (random, PCT, starved/eager extremes, bounded-exhaustive DFS with "
+                       "preemption bound for tiny programs); linearizability search + register/cut-consistency oracles; deadlock and lost-wake-up detection"},
     {"name": "crash", "path": "vf/engines/crash.cc", "serves_properties": ["C02", "C03", "C05", "C17"],
      "kind_free_text": "fault enumeration over recorded I/O traces: generated write histories recorded at system-call granularity, replayed through a "
                        "file-system model that implements exactly C02's crash model; every state-changing call boundary x {minimal, maximal, directory-ahead, "
@@ -80,6 +86,26 @@ CHECKS = {
                      "permuted reference encodings; varint32 exhaustive near every 2^(7k) (all 2^32 in the thorough tier); (2) over generated histories the MANIFEST named by "
                      "CURRENT, replayed by the reference decoder, must reproduce the reported file set and counters at every quiescent point; (3) on crash images around "
                      "MANIFEST roll-over CURRENT must end in a newline and name a MANIFEST that the reference decodes, and open must succeed."),
+    "C12": dict(engine="fault", cat="fault_enumeration", ref="3/C12",
+                technique="system-call fault injection enumerated over the intercepted calls of generated histories; model with indeterminate failed writes; close/kill + reopen oracle",
+                text="For each generated history the eligible intercepted calls are counted in a fault-free run, then the history is re-run with the k-th call failing (every k for short traces, "
+                     "a seeded sample otherwise) with ENOSPC/EIO/EMFILE/ENOENT, one-shot, persistent or short-write. No crash/abort/deadlock; a write during which a log write or sync failed "
+                     "does not return OK; reads return a value some acknowledged-or-failed write produced, or an error after the fault; after clearing the fault both the closed database and the "
+                     "kill image reopen, hold every acknowledged batch whole, and accept writes."),
+    "C08": dict(engine="conc", cat="exploration", ref="3/C08",
+                technique="schedule exploration on a deterministic scheduler + Wing-Gong linearizability search and register/snapshot-cut checks",
+                text="Generated programs of 2..5 (8) threads run under harness-owned schedules (random, PCT, extremes; several schedules per program; bounded-exhaustive enumeration with preemption "
+                     "bound 2 for tiny programs). Histories of <=14 operations get a complete linearizability search against a sequential map; all histories get single-writer register freshness "
+                     "and monotonicity checks, snapshot/scan views closed under program order, and a final-state check. Exploration: no claim beyond the schedules run."),
+    "C09": dict(engine="conc", cat="exploration", ref="3/C09",
+                technique="schedule exploration on a deterministic scheduler with exact deadlock detection and per-call step bounds",
+                text="Same engine biased to blocking paths (full write buffer with pending immutable memtable, many level-0 files, queued writers, flush/compaction from several threads, starved "
+                     "background thread, spurious wake-ups). A reachable state with unfinished threads and none runnable, a call exceeding its step bound, or a thread left blocked after close is a violation."),
+    "C04": dict(engine="crash", cat="exploration", ref="3/C04",
+                technique="crash-image enumeration with two marker keys per batch (fault enumeration) + schedule exploration with whole-group snapshot reads",
+                text="Two parts; the weaker level is claimed. (a) crash side: batches of 2..400 (2000) updates spanning several log blocks, every crash point and image of the C02 enumeration plus torn "
+                     "cuts; first and last marker of each batch must both be present or both absent and contents must equal the fold of whole batches. (b) concurrent side: writers set their key "
+                     "group to one fresh token per batch while readers snapshot-read or scan whole groups under explored schedules; a view must reflect whole batches in program order."),
 }
 
 NOT_APPLICABLE = []
